@@ -154,6 +154,9 @@ def run(ctx, w):
     from rules import c03, c18, tables
     shared.embed(ctx, w, lambda c, ww: c03.run_t7(c, ww, tables.parser_tables(ww)))
     shared.embed(ctx, w, c18.run)
+    # a saved cursor outside the screen cannot be expressed by the dump (CUP clamps it): the re-layout must bound it on every path
+    from rules import c17
+    c17.clamp_rule(ctx, w, S, R)
 
 
 # ---- U1 -------------------------------------------------------------------------------------
